@@ -262,11 +262,13 @@ func genIndex(t *rapid.T, hardenedOnly bool) uint32 {
 func genDerive(t *rapid.T) deriveCase {
 	curve := []string{"secp256k1", "nist256p1", "ed25519", "toyW50", "toyW90", "toyS50", "toyS90"}[h.Pick(t, "curve", 3, 3, 3, 3, 2, 2, 2)]
 	var seed h.B
-	switch h.Pick(t, "sk", 6, 2, 1) {
+	switch h.Pick(t, "sk", 5, 2, 3, 1) {
 	case 0:
 		seed = h.Bytes(t, "seed", 16, 64)
 	case 1:
 		seed = h.Bytes(t, "seed", 0, 128)
+	case 2: // longer than the HMAC-SHA512 output / block size
+		seed = h.BytesN(t, "longseed", h.OneOf(t, "sl", 65, 66, 80, 127, 128, 129, 200, 256))
 	default:
 		seed = make(h.B, rapid.IntRange(0, 64).Draw(t, "zseed"))
 	}
@@ -308,6 +310,6 @@ func TestDerive(t *testing.T) {
 		Require: []string{"secp256k1/path", "nist256p1/path", "ed25519/path", "secp256k1/public-derivation", "nist256p1/public-derivation",
 			"retry/master", "retry/child", "retry/master+child", "undefined/hardened-from-public", "undefined/ed25519-non-hardened",
 			"undefined/ed25519-non-hardened-public", "permanent-error/master", "permanent-error/child"},
-		Rule: "seeds of length 0..128 x {secp256k1, P-256, ed25519, toy curves with 50% / 87.5% invalid candidates (Weierstrass-like and string-key-like)} x paths of 0..6 hardened/non-hardened indices, optionally switching to the extended public key at a drawn step, optionally a permanent (non-ErrInvalidKey) curve error injected at a drawn call; at every prefix private key, chain code, serialized public key and fingerprint = own SLIP-0010 model with the same validity predicate; path API = step-wise; undefined derivations fail; permanent errors returned after exactly the expected number of curve calls (call budget 2000 instead of a timeout); non-trivial = path length >= 1 on a real curve, >= 1 retry on a toy curve, undefined derivation, or injected fault; distinct by case",
+		Rule: "seeds of length 0..256 (weighted to > 64 and > 128 bytes) x {secp256k1, P-256, ed25519, toy curves with 50% / 87.5% invalid candidates (Weierstrass-like and string-key-like)} x paths of 0..6 hardened/non-hardened indices, optionally switching to the extended public key at a drawn step, optionally a permanent (non-ErrInvalidKey) curve error injected at a drawn call; at every prefix private key, chain code, serialized public key and fingerprint = own SLIP-0010 model with the same validity predicate; path API = step-wise; undefined derivations fail; permanent errors returned after exactly the expected number of curve calls (call budget 2000 instead of a timeout); non-trivial = path length >= 1 on a real curve, >= 1 retry on a toy curve, undefined derivation, or injected fault; distinct by case",
 	})
 }
